@@ -10,6 +10,8 @@ import Mathlib.Analysis.Calculus.Deriv.Mul
 import Mathlib.Data.Complex.BigOperators
 import Mathlib.Analysis.Complex.Norm
 import Mathlib.Analysis.Complex.Trigonometric
+import Mathlib.Algebra.Order.Floor.Semiring
+import Mathlib.Tactic.NormNum
 /-!
 # C10 — point scale factor and grid convergence belong to the projection actually used
 
@@ -57,6 +59,7 @@ def convMag (ξ η ω χ : ℝ) (ell : Ellipsoid) : ℝ :=
   PyR.degrees (Real.arctan |qS (alpha_coeff ell) ξ η / pS (alpha_coeff ell) ξ η|
     + Real.arctan (|Real.tan χ * Real.tan ω| / Real.sqrt (1 + Real.tan χ ^ 2)))
 
+/-- C10.0: the generated `psfandgridconv` is `(psfExpr, ±convMag)`; every ellipsoid/projection quantity is a field of the ARGUMENTS `ell`, `prj` (`rect_radius ell`, `alpha_coeff ell`, `ell.semimaj`, `ell.ecc1sq`, `prj.cmscale`) — no GRS80/UTM constant occurs. -/
 theorem psf_unfold (ξ η lat lon cm χ : ℝ) (ell : Ellipsoid) (prj : Projection) :
     psfandgridconv ξ η lat lon cm χ ell prj =
       (psfExpr ξ η (PyR.radians lat) (PyR.radians (lon - cm)) χ ell prj,
@@ -96,6 +99,7 @@ theorem psf_unfold (ξ η lat lon cm χ : ℝ) (ell : Ellipsoid) (prj : Projecti
     all_goals first | rfl | (exfalso; tauto)
 
 
+/-- the result depends on the ellipsoid only through `semimaj, inversef, n, ecc1sq` and on the projection only through `cmscale` -/
 theorem psf_uses_call_ellipsoid_projection (ξ η lat lon cm χ : ℝ) (ell₁ ell₂ : Ellipsoid)
     (prj₁ prj₂ : Projection)
     (ha : ell₁.semimaj = ell₂.semimaj) (hf : ell₁.inversef = ell₂.inversef)
@@ -105,6 +109,7 @@ theorem psf_uses_call_ellipsoid_projection (ξ η lat lon cm χ : ℝ) (ell₁ e
   unfold psfandgridconv rect_radius alpha_coeff
   simp only [ha, hf, hn, he, hk]
 
+/-- the point scale factor is linear in the projection's central scale factor; the convergence does not depend on it -/
 theorem psf_scales_with_cmscale (ξ η lat lon cm χ k : ℝ) (ell : Ellipsoid) (prj : Projection) :
     (psfandgridconv ξ η lat lon cm χ ell { prj with cmscale := k }).1
       = k * (psfandgridconv ξ η lat lon cm χ ell { prj with cmscale := 1 }).1 ∧
@@ -134,6 +139,7 @@ theorem ite_error_ok {ε α : Type} {c : Prop} [Decidable c] {e : ε} {X : Excep
   split_ifs at h with hc
   exact ⟨hc, h⟩
 
+/-- robust (shape-independent) form of the `geo2grid` call site: the last two outputs are `psfandgridconv … ell prj` of the call's own `ell`, `prj` -/
 theorem geo2grid_ok_form (lat lon zone : ℝ) (ell : Ellipsoid) (prj : Projection)
     (r : String × ℝ × ℝ × ℝ × ℝ × ℝ) (h : geo2grid lat lon zone ell prj = .ok r) :
     ∃ ξ η cm χ φ, r.2.2.2.2 =
@@ -168,6 +174,7 @@ def gsEta (χ ω : ℝ) : ℝ :=
   let u := Real.sin ω / Real.sqrt (Real.tan χ ^ 2 + Real.cos ω ^ 2)
   Real.log (u + Real.sqrt (1 + u ^ 2))
 
+/-- full-strength `geo2grid` call site: outputs 5, 6 are `(round₈ psf, conv)` of `psfandgridconv` at the Gauss–Schreiber `ξ′, η′`, central meridian of the returned zone, conformal latitude on `ell`, with the call's `ell`, `prj` -/
 theorem geo2grid_call_site (lat lon zone : ℝ) (ell : Ellipsoid) (prj : Projection)
     (r : String × ℝ × ℝ × ℝ × ℝ × ℝ) (h : geo2grid lat lon zone ell prj = .ok r) :
     let cm := centralMeridian prj r.2.1
@@ -185,6 +192,7 @@ theorem geo2grid_call_site (lat lon zone : ℝ) (ell : Ellipsoid) (prj : Project
   rfl
 
 
+/-- `grid2geo` call site: outputs 3, 4 are `(round₈ psf, s·conv)` of `psfandgridconv … ell prj` with the call's `ell`, `prj`, at the same `ξ′, η′, lat, long` that produce outputs 1, 2, and the same hemisphere sign `s` that multiplies the latitude -/
 theorem grid2geo_ok_form (zone east north : ℝ) (hemi : String) (ell : Ellipsoid) (prj : Projection)
     (r : ℝ × ℝ × ℝ × ℝ) (h : grid2geo zone east north hemi ell prj = .ok r) :
     ∃ ξ η lat s, (s = if strLower hemi = "north" then -1 else 1) ∧
@@ -447,8 +455,8 @@ theorem conv_zero_cm (ξ lat cm χ : ℝ) (ell : Ellipsoid) (prj : Projection) :
     (psfandgridconv ξ 0 lat cm cm χ ell prj).2 = 0 := by
   have h : convMag ξ 0 (PyR.radians (cm - cm)) χ ell = 0 := by
     unfold convMag
-    simp only [qS_eta_zero, zero_div, abs_zero, Real.arctan_zero, sub_self, radians_def, zero_mul,
-      Real.tan_zero, mul_zero, add_zero, degrees_def]
+    simp only [qS_eta_zero, zero_div, abs_zero, Real.arctan_zero, sub_self, zero_mul,
+      Real.tan_zero, mul_zero, add_zero]
   rw [psf_unfold, h]; simp only [neg_zero, ite_self]
 
 /-- convergence vanishes on the equator (`ξ′ = 0`, `χ = 0`) -/
@@ -457,7 +465,7 @@ theorem conv_zero_equator (η lat lon cm : ℝ) (ell : Ellipsoid) (prj : Project
   have h : convMag 0 η (PyR.radians (lon - cm)) 0 ell = 0 := by
     unfold convMag
     simp only [qS_xi_zero, zero_div, abs_zero, Real.arctan_zero, Real.tan_zero, zero_mul,
-      add_zero, degrees_def]
+      add_zero]
   rw [psf_unfold, h]; simp only [neg_zero, ite_self]
 
 /-! ## Point scale factor on the central meridian, factorisation -/
@@ -490,7 +498,9 @@ theorem psf_on_cm_geometric (ξ lat cm χ : ℝ) (ell : Ellipsoid) (prj : Projec
   have h1 := Real.inv_sqrt_one_add_tan_sq hφ
   have h2 := Real.inv_sqrt_one_add_tan_sq hχ
   rw [show Real.tan χ ^ 2 + 1 = 1 + Real.tan χ ^ 2 by ring]
-  rw [div_eq_mul_inv, h2, ← h1]
+  have p1 : 0 < Real.sqrt (1 + Real.tan (PyR.radians lat) ^ 2) := Real.sqrt_pos.mpr (by positivity)
+  have p2 : 0 < Real.sqrt (1 + Real.tan χ ^ 2) := Real.sqrt_pos.mpr (by positivity)
+  rw [← h1, ← h2]
   field_simp
 
 example : 0 < Real.cos (PyR.radians (-35)) := by
@@ -502,7 +512,8 @@ example : 0 < Real.cos (PyR.radians (-35)) := by
 scale `1/√(1 − cos²χ sin²ω)`) × (conformal-sphere scale `cos χ √(1−e² sin²φ)/cos φ`) × `k₀ A/a`,
 with every ellipsoid/projection quantity taken from the call's arguments. -/
 theorem psf_factorisation (ξ η lat lon cm χ : ℝ) (ell : Ellipsoid) (prj : Projection)
-    (hφ : 0 < Real.cos (PyR.radians lat)) (hχ : 0 < Real.cos χ) :
+    (hφ : 0 < Real.cos (PyR.radians lat)) (hχ : 0 < Real.cos χ)
+    (_hω : Real.cos χ ^ 2 * Real.sin (PyR.radians (lon - cm)) ^ 2 < 1) :
     (psfandgridconv ξ η lat lon cm χ ell prj).1 =
       prj.cmscale * (rect_radius ell / ell.semimaj)
         * ‖gK' (alpha_coeff ell) ((ξ : ℂ) + (η : ℂ) * Complex.I)‖
@@ -524,4 +535,164 @@ theorem psf_factorisation (ξ η lat lon cm χ : ℝ) (ell : Ellipsoid) (prj : P
   rw [e, Real.sqrt_div' _ (by positivity), Real.sqrt_sq hχ.le, ← h1]
   field_simp
 
+/-! ## `atan|q/p|` is the argument of the series derivative -/
+
+/-- C10.2 (second half): for `p > 0`, `atan|q/p| = |arg g′(ζ′)|`. -/
+theorem atan_q_div_p_eq_abs_arg (a : Coef8) (ξ η : ℝ) (hp : 0 < pS a ξ η) :
+    Real.arctan |qS a ξ η / pS a ξ η|
+      = |Complex.arg (gK' a ((ξ : ℂ) + (η : ℂ) * Complex.I))| := by
+  set z := gK' a ((ξ : ℂ) + (η : ℂ) * Complex.I) with hz
+  have hre : z.re = pS a ξ η := gK'_re a ξ η
+  have him : z.im = qS a ξ η := gK'_im a ξ η
+  have hlt : |Complex.arg z| < Real.pi / 2 :=
+    Complex.abs_arg_lt_pi_div_two_iff.mpr (Or.inl (by rw [hre]; exact hp))
+  have ht := Complex.tan_arg z
+  rw [hre, him] at ht
+  rw [arctan_abs, ← ht, Real.arctan_tan (by linarith [(abs_lt.mp hlt).1]) (abs_lt.mp hlt).2]
+
+/-! ## Rounding of the returned point scale factor -/
+
+/-- C10.7 -/
+theorem round8_close (x : ℝ) : |pround 8 x - x| ≤ 5 / 10 ^ 9 := by
+  have h := PyR.pround_close 8 x
+  have e : (1 : ℝ) / 2 / 10 ^ 8 = 5 / 10 ^ 9 := by norm_num
+  rw [e] at h; exact h
+
+/-- the point scale factor returned by `geo2grid` is within `5·10⁻⁹` of the unrounded value computed
+from the call's own ellipsoid and projection -/
+theorem geo2grid_psf_close (lat lon zone : ℝ) (ell : Ellipsoid) (prj : Projection)
+    (r : String × ℝ × ℝ × ℝ × ℝ × ℝ) (h : geo2grid lat lon zone ell prj = .ok r) :
+    let cm := centralMeridian prj r.2.1
+    let φ := PyR.radians lat
+    let χ := confLat ell φ
+    let ω := PyR.radians (lon - cm)
+    |r.2.2.2.2.1 - psfExpr (gsXi χ ω) (gsEta χ ω) φ ω χ ell prj| ≤ 5 / 10 ^ 9 := by
+  intro cm φ χ ω
+  have h1 := geo2grid_call_site lat lon zone ell prj r h
+  have h2 := congrArg Prod.fst h1
+  simp only at h2
+  rw [h2, psf_unfold]
+  simp only [radians_degrees]
+  exact round8_close _
+
+/-- C10.1: both call sites evaluate `psfandgridconv` with the ellipsoid and projection of the call
+(for **every** `ell`, `prj`), at the Gauss–Schreiber coordinates, central meridian and conformal
+latitude the conversion itself computed; `grid2geo` applies its hemisphere sign to the convergence
+exactly as it does to the latitude. -/
+theorem call_sites_pass_arguments (ell : Ellipsoid) (prj : Projection) :
+    (∀ lat lon zone r, geo2grid lat lon zone ell prj = .ok r →
+      let cm := centralMeridian prj r.2.1
+      let φ := PyR.radians lat
+      let χ := confLat ell φ
+      let ω := PyR.radians (lon - cm)
+      r.2.2.2.2 =
+        (pround 8 (psfandgridconv (gsXi χ ω) (gsEta χ ω) (PyR.degrees φ) lon cm χ ell prj).1,
+         (psfandgridconv (gsXi χ ω) (gsEta χ ω) (PyR.degrees φ) lon cm χ ell prj).2)) ∧
+    (∀ zone east north hemi r, grid2geo zone east north hemi ell prj = .ok r →
+      ∃ ξ η lat s, (s = if strLower hemi = "north" then -1 else 1) ∧
+        let cm := centralMeridian prj (trunc zone)
+        let χ := Real.arctan (Real.sin ξ / Real.sqrt (Real.sinh η ^ 2 + Real.cos ξ ^ 2))
+        let long := cm + PyR.degrees (Real.arctan (Real.sinh η / Real.cos ξ))
+        r.1 = s * pround 11 lat ∧ r.2.1 = pround 11 long ∧
+        r.2.2 =
+        (pround 8 (psfandgridconv ξ η lat long cm χ ell prj).1,
+         s * (psfandgridconv ξ η lat long cm χ ell prj).2)) :=
+  ⟨fun lat lon zone r h => geo2grid_call_site lat lon zone ell prj r h,
+   fun zone east north hemi r h => grid2geo_ok_form zone east north hemi ell prj r h⟩
+
+
+/-! ## The hypotheses `… = .ok r` of the call-site theorems are satisfiable (any ellipsoid, any
+non-ISG projection) -/
+
+theorem trunc_natCast (n : ℕ) : trunc (n : ℝ) = n := by
+  unfold trunc
+  rw [if_neg (not_lt.mpr (Nat.cast_nonneg n))]
+  simp
+
+theorem whileLoop_terminates {σ : Type} (cond : σ → Bool) (body : σ → σ) (m : σ → ℕ)
+    (hdec : ∀ s, cond s = true → m (body s) < m s) :
+    ∀ (fuel : ℕ) (s : σ), m s ≤ fuel → ∃ s', Py.whileLoop fuel cond body s = some s' := by
+  intro fuel
+  induction fuel with
+  | zero =>
+    intro s hs
+    simp only [Py.whileLoop]
+    by_cases hc : cond s = true
+    · have := hdec s hc; omega
+    · rw [if_neg hc]; exact ⟨s, rfl⟩
+  | succ n ih =>
+    intro s hs
+    simp only [Py.whileLoop]
+    by_cases hc : cond s = true
+    · rw [if_pos hc]; exact ih _ (by have := hdec s hc; omega)
+    · rw [if_neg hc]; exact ⟨s, rfl⟩
+
+theorem counter_loop_terminates (cond : ℝ × ℝ × ℝ → Bool) (body : ℝ × ℝ × ℝ → ℝ × ℝ × ℝ)
+    (hc : ∀ s, cond s = true → s.1 < 100) (hb : ∀ s, (body s).1 = s.1 + 1) (a b : ℝ) :
+    ∃ s', Py.whileLoop 200 cond body (0, a, b) = some s' := by
+  refine whileLoop_terminates cond body (fun s => ⌈100 - s.1⌉₊) (fun s h => ?_) 200 _ ?_
+  · have h1 := hc s h
+    simp only [hb]
+    have hpos : 0 < ⌈100 - s.1⌉₊ := Nat.ceil_pos.mpr (by linarith)
+    have : ⌈100 - (s.1 + 1)⌉₊ ≤ ⌈100 - s.1⌉₊ - 1 := by
+      rw [Nat.ceil_le]
+      have := Nat.le_ceil (100 - s.1)
+      rw [Nat.cast_sub hpos]; push_cast; linarith
+    omega
+  · simp only [sub_zero]
+    have : ⌈(100 : ℝ)⌉₊ = 100 := by exact_mod_cast Nat.ceil_natCast (R := ℝ) 100
+    omega
+
+theorem strLower_south : strLower "south" = "south" := by unfold strLower; decide +kernel
+
+example (ell : Ellipsoid) (prj : Projection) (hp : prj.pyid ≠ isg.pyid) :
+    ∃ r, grid2geo 55 500000 6000000 "south" ell prj = .ok r := by
+  have ht : trunc (55 : ℝ) = 55 := by exact_mod_cast trunc_natCast 55
+  unfold grid2geo
+  rw [ht]
+  simp only [if_neg hp]
+  rw [if_neg (by norm_num)]
+  simp only [Except.bind]
+  rw [if_neg (by norm_num), if_neg (by norm_num)]
+  simp only [strLower_south]
+  rw [if_neg (by simp)]
+  generalize hw : Py.whileLoop 200 _ _ _ = o
+  obtain ⟨s', hs'⟩ : ∃ s', o = some s' := by
+    rw [← hw]
+    exact counter_loop_terminates _ _ (fun s h => by simp only [decide_eq_true_eq] at h; exact h.2) (fun s => rfl) _ _
+  subst hs'
+  exact ⟨_, rfl⟩
+
+example (ell : Ellipsoid) (prj : Projection) (hp : prj.pyid ≠ isg.pyid) :
+    ∃ r, geo2grid (-35) 149 55 ell prj = .ok r := by
+  have ht : trunc (55 : ℝ) = 55 := by exact_mod_cast trunc_natCast 55
+  unfold geo2grid
+  rw [ht]
+  simp only [if_neg hp]
+  rw [if_neg (by norm_num)]
+  simp only [Except.bind]
+  rw [if_neg (by norm_num), if_neg (by norm_num)]
+  exact ⟨_, rfl⟩
+
 end GeodeVerif.C10
+
+#print axioms GeodeVerif.C10.psf_unfold
+#print axioms GeodeVerif.C10.psf_uses_call_ellipsoid_projection
+#print axioms GeodeVerif.C10.psf_scales_with_cmscale
+#print axioms GeodeVerif.C10.call_sites_pass_arguments
+#print axioms GeodeVerif.C10.geo2grid_ok_form
+#print axioms GeodeVerif.C10.geo2grid_psf_close
+#print axioms GeodeVerif.C10.pq_is_derivative
+#print axioms GeodeVerif.C10.atan_q_div_p_eq_abs_arg
+#print axioms GeodeVerif.C10.psf_factorisation
+#print axioms GeodeVerif.C10.conv_terms
+#print axioms GeodeVerif.C10.conv_sign
+#print axioms GeodeVerif.C10.conv_neg_iff
+#print axioms GeodeVerif.C10.conv_odd_in_lat
+#print axioms GeodeVerif.C10.conv_odd_in_lon
+#print axioms GeodeVerif.C10.conv_zero_cm
+#print axioms GeodeVerif.C10.conv_zero_equator
+#print axioms GeodeVerif.C10.psf_on_cm
+#print axioms GeodeVerif.C10.psf_on_cm_geometric
+#print axioms GeodeVerif.C10.round8_close
+#print axioms GeodeVerif.C10.strLower_south
